@@ -482,20 +482,41 @@ func ruleFollowerAlwaysAsksTheLeader(c *eng.Ctx) {
 			return false
 		}
 		bo, ok := iff.Cond.(*ssa.BinOp)
-		if !ok || (bo.Op != token.LSS && bo.Op != token.LEQ) {
+		if !ok {
 			return false
 		}
-		ph, isPhi := bo.X.(*ssa.Phi)
-		bound, okB := eng.ConstVal(bo.Y)
-		if !isPhi || !okB {
-			return false
-		}
-		for _, in := range ph.Edges {
-			if k, okK := eng.ConstVal(in); okK && (k < bound || (bo.Op == token.LEQ && k == bound)) {
-				return true
+		// counter OP bound, either way round (`i < 3`, `remaining > 0`, `3 > i`): true for the counter's constant start
+		holds := func(a int64, op token.Token, b int64) bool {
+			switch op {
+			case token.LSS:
+				return a < b
+			case token.LEQ:
+				return a <= b
+			case token.GTR:
+				return a > b
+			case token.GEQ:
+				return a >= b
+			case token.NEQ:
+				return a != b
 			}
+			return false
 		}
-		return false
+		try := func(counter, bound ssa.Value, swapped bool) bool {
+			ph, isPhi := counter.(*ssa.Phi)
+			b, okB := eng.ConstVal(bound)
+			if !isPhi || !okB {
+				return false
+			}
+			for _, in := range ph.Edges {
+				if k, okK := eng.ConstVal(in); okK {
+					if (!swapped && holds(k, bo.Op, b)) || (swapped && holds(b, bo.Op, k)) {
+						return true
+					}
+				}
+			}
+			return false
+		}
+		return try(bo.X, bo.Y, false) || try(bo.Y, bo.X, true)
 	}
 	q := &eng.PathQuery{Fn: fn, FromEntry: true, Target: isReturn, CutInstr: eng.IsCallTo("server.partition.sendLeaderOffsetRequest"), CutEdgeFn: zeroTrip}
 	w := q.Find()
